@@ -173,7 +173,7 @@ def apply_model(spec, mods):
     # ---- the documented refusal: an insertion registered after a deletion/replacement
     #      that starts at the same offset
     per_block = collections.defaultdict(list)
-    for mid, m in enumerate(mods):
+    for mid, m in expanded_for_refusal(spec, mods):
         per_block[m["b"]].append((m["k"], mid, m))
     for bn, lst in per_block.items():
         lst.sort(key=lambda x: (x[0], x[1]))
@@ -183,8 +183,20 @@ def apply_model(spec, mods):
                 expect = ("refuse", "modifications overlap")
             last_end = k + (m.get("n", 0) if m["op"] in ("rep", "del") else 0)
 
-    # ---- insertions: fill slots in registration order
+    # ---- scope registrations (AllBlocksScope ENTRY): one insertion at offset 0 of every code block,
+    #      all with the registration id of the scope; invocation j (address order) carries tag base+j
+    expanded = []
     for mid, m in enumerate(mods):
+        if m["op"] == "scope":
+            j = 0
+            for s_, b_ in all_blocks(spec):
+                if b_["k"] == "c":
+                    expanded.append((mid, {"op": "ins", "b": b_["n"], "k": 0, "p": [["p", m["base"] + j]]}))
+                    j += 1
+        else:
+            expanded.append((mid, m))
+    # ---- insertions: fill slots in registration order
+    for mid, m in expanded:
         if m["op"] not in ("ins", "rep"):
             continue
         sname, b = binfo[m["b"]]
@@ -207,7 +219,7 @@ def apply_model(spec, mods):
     # ---- deletions, in address order
     proxied = set()
     wholly_deleted = set()
-    dels = [(order[m["b"]], m["k"], mid, m) for mid, m in enumerate(mods) if m["op"] in ("rep", "del")]
+    dels = [(order[m["b"]], m["k"], mid, m) for mid, m in enumerate(mods) if m["op"] in ("rep", "del")]  # scope ops never delete
     dels.sort(key=lambda x: x[:3])
     deleted_count = collections.Counter()
     for _, k, mid, m in dels:
@@ -274,6 +286,16 @@ def _emptied(toks, bname):
     return inside
 
 
+def expanded_for_refusal(spec, mods):
+    for mid, m in enumerate(mods):
+        if m["op"] == "scope":
+            for s_, b_ in all_blocks(spec):
+                if b_["k"] == "c":
+                    yield mid, {"op": "ins", "b": b_["n"], "k": 0}
+        else:
+            yield mid, m
+
+
 class Listing:
     """Flattened expectation / observation."""
 
@@ -301,14 +323,29 @@ def flatten(spec, secs, proxied):
         pos = 0
         data = b""
         in_proc = False
+        prev_kind = None
         for ti, t in enumerate(toks):
             if t.get("dead") or t.get("proxied"):
                 continue
             if t["t"] == "ins":
                 t["_key"] = (sname, pos)
+                prev_kind = t["bk"]
             if t["t"] == "lab":
                 L.labels[t["n"]] = (sname, pos)
             elif t["t"] == "blk" and t.get("al"):
+                if spec.get("model_padding") and pos > 0 and not _emptied(toks, t["b"]):
+                    # re-joining the per-block intervals pads with whole nops after code / zeros after
+                    # data so that an aligned original block stays aligned (one interval per section)
+                    padn = (-(SEC_BASE[sname] + pos)) % t["al"]
+                    for _ in range(padn):
+                        if prev_kind == "c":
+                            L.insns[(sname, pos)] = {"ins": ("nop",), "size": 1, "f": None, "bk": "c", "uid": ("pad", sname, pos), "tok": ti}
+                            data += isa_.nop
+                            pos += len(isa_.nop)
+                        else:
+                            L.insns[(sname, pos)] = {"ins": ("d", 0), "size": 1, "f": None, "bk": "d", "uid": ("pad", sname, pos), "tok": ti}
+                            data += b"\x00"
+                            pos += 1
                 L.align[(sname, pos)] = t["al"]
             elif t["t"] == "cfi":
                 if t.get("dropped_by") is None:
@@ -411,6 +448,8 @@ def flatten(spec, secs, proxied):
                 L.edges.add((key, "Branch", False, False, "proxy"))
             elif k == "icall":
                 L.edges.add((key, "Call", False, False, "proxy"))
+            elif k == "syscall":
+                L.edges.add((key, "Syscall", False, False, "proxy"))
     for key in order:
         rec = L.insns[key]
         if rec["bk"] == "c" and rec["ins"][0] == "ret":
@@ -604,6 +643,18 @@ def register(w, ctx, mods, log=None, faults=None):
     """Registers the modifications on a RewritingContext, in list order."""
     isa_ = w.isa
     for mid, m in enumerate(mods):
+        if m["op"] == "scope":
+            from gtirb_rewriting import AllBlocksScope, BlockPosition, Constraints, Patch
+
+            counter = {"n": 0}
+
+            def asm(ctx_, m=m, counter=counter):
+                t = m["base"] + counter["n"]
+                counter["n"] += 1
+                return isa_.asm(("p", t)) + "\n"
+
+            ctx.register_insert(AllBlocksScope(BlockPosition.ENTRY), Patch.from_function(asm, Constraints()))
+            continue
         _, b = block_of(w.spec, m["b"])
         offs = insn_offsets(isa_, b)
         blk = w.blocks[m["b"]]
@@ -613,7 +664,12 @@ def register(w, ctx, mods, log=None, faults=None):
             if isinstance(m["p"], dict):
                 patch = bytes(m["p"]["bytes"])
             else:
-                patch = make_patch(isa_, m["p"], log, (faults or {}).get(mid))
+                cons = None
+                if m.get("cons"):
+                    from gtirb_rewriting import Constraints
+
+                    cons = Constraints(**{k: (set(v) if isinstance(v, list) else v) for k, v in m["cons"].items()})
+                patch = make_patch(isa_, m["p"], log, (faults or {}).get(mid), constraints=cons)
             if m["op"] == "ins":
                 ctx.insert_at(blk, offs[k], patch)
             else:
@@ -641,9 +697,9 @@ def rewrite(spec, mods, **kw):
 # observation
 
 
-def section_layout(sect):
+def section_layout(sect, exclude=()):
     """[(interval, base position)] of a section in address order + concatenated bytes"""
-    ivs = sorted(sect.byte_intervals, key=lambda bi: (bi.address if bi.address is not None else -1, bi.uuid.int))
+    ivs = sorted((bi for bi in sect.byte_intervals if bi not in exclude), key=lambda bi: (bi.address if bi.address is not None else -1, bi.uuid.int))
     out = []
     pos = 0
     data = b""
@@ -664,8 +720,9 @@ def observe(w):
     L = Listing()
     L.blocks = {}
     bipos = {}
+    exclude = getattr(w, "exclude_intervals", ())
     for sect in m.sections:
-        lay, data = section_layout(sect)
+        lay, data = section_layout(sect, exclude)
         L.bytes[sect.name] = data
         for bi, p in lay:
             bipos[bi] = (sect.name, p)
